@@ -430,6 +430,31 @@ fn find_arg<'r, 'c, 's:'c, 'm:'c>(rules_with_context: &'r mut SpeechRulesWithCon
     return Ok(None);               // not present
 }
 
+#[cfg(mathcat_verif)]
+/// Verification hooks (compiled only with `--cfg mathcat_verif`)
+pub mod verif {
+    use super::*;
+    /// the token sequence LexState produces for an intent value: (kind, text) pairs, or the lexer's error
+    pub fn lex(intent: &str) -> Result<Vec<(String, String)>> {
+        let mut tokens = vec![];
+        let mut lex_state = LexState::init(intent.trim())?;
+        loop {
+            let kind = match lex_state.token {
+                Token::Terminal(_) => "terminal",
+                Token::Property(_) => "property",
+                Token::ArgRef(_) => "argref",
+                Token::ConceptOrLiteral(_) => "name",
+                Token::Number(_) => "number",
+                Token::None => return Ok(tokens),
+            };
+            // a terminal token holds the rest of the string when it was produced by set_token; only its first char counts
+            let text = if kind == "terminal" {lex_state.token.as_str()[..1].to_string()} else {lex_state.token.as_str().to_string()};
+            tokens.push((kind.to_string(), text));
+            lex_state.get_next()?;
+        }
+    }
+}
+
 #[cfg(test)]
 mod tests {
     #[allow(unused_imports)]
